@@ -116,6 +116,8 @@ func Run(r *vh.Run) {
 		{"caps", r.Pick(6, 120), scenCaps, false},
 		{"capsout", r.Pick(3, 32), scenCapsOut, false},
 		{"storefail", r.Pick(4, 40), scenStoreFail, false},
+		{"banlock", r.Pick(2, 20), scenBanLock, false},
+		{"slowrpc", r.Pick(2, 20), scenSlowRPC, false},
 		{"shutdown", r.Pick(14, 252), scenShutdown, false},
 		{"srv", r.Pick(3, 60), scenSrv, false},
 		{"wallet", r.Pick(2, 30), scenWallet, false},
@@ -1951,6 +1953,150 @@ func scenStoreFail(name string, rng *vh.RNG, r *vh.Run) {
 	tags := []string{"scen:storefail"}
 	r.Add(capsCase(name, events, srv.s.VerifID(), maxIn, 16, tags))
 	if tc := teardownCase(name, events, srv.s.VerifID(), srv.s.VerifTG(), tags); tc != nil {
+		r.Add(tc)
+	}
+}
+
+// scenBanLock: two connections of one address offend one after the other (an empty transaction set
+// is a ban-worthy offence): the second strike bans the /32, i.e. the syncer calls PeerStore.Ban for
+// the subnet.  The rig's store calls back into the syncer (Peers()) from every store call, as a
+// store that drops the peers it bans would: the syncer must not hold its mutex while it calls the
+// store.  Then Close.
+func scenBanLock(name string, rng *vh.RNG, r *vh.Run) {
+	strikes := 2 + rng.Intn(2)
+	c := &vh.Case{Name: name, Tags: []string{"scen:banlock"}, Info: map[string]any{"offences": strikes}}
+	defer func() { r.Add(c) }()
+	threadgroup.VerifStart()
+	fs := &failStore{PeerStore: testutil.NewEphemeralPeerStore()}
+	srv, err := newNodeFull("127.0.0.1", "", nil, false, fs)
+	if err != nil {
+		orc(c, "setup", "server: %v", err)
+		return
+	}
+	fs.mu.Lock()
+	fs.probe = func() { srv.s.Peers() }
+	fs.mu.Unlock()
+	cl, err := newNode("127.0.60.1", "127.0.60.1", nil, false)
+	if err != nil {
+		orc(c, "setup", "client: %v", err)
+		return
+	}
+	for k := 0; k < strikes; k++ {
+		p, err := cl.s.Connect(context.Background(), srv.s.Addr())
+		if err != nil {
+			orc(c, "setup", "connect %d: %v", k, err)
+			break
+		}
+		p.RelayV2TransactionSet(srv.cm.Tip(), nil, 5*time.Second)
+		// the offender is dropped
+		deadline := time.Now().Add(settleDeadline)
+		for (len(srv.s.Peers()) != 0 || len(cl.s.Peers()) != 0) && time.Now().Before(deadline) {
+			time.Sleep(2 * time.Millisecond)
+		}
+		if n := len(srv.s.Peers()); n != 0 {
+			orc(c, "banned-peer-still-connected", "%d peer(s) still connected %v after an empty transaction set", n, settleDeadline)
+			break
+		}
+	}
+	fs.mu.Lock()
+	held, bans := append([]string(nil), fs.lockHeld...), len(fs.bans)
+	fs.mu.Unlock()
+	c.Info["store_bans"] = bans
+	if len(held) > 0 {
+		orc(c, "peer-store-called-with-lock-held", "the syncer called the peer store with its mutex held: a callback into the syncer (Peers()) from %s did not return within 2s (a store that reacts to a ban by looking at the connected peers deadlocks; the RPC handler hangs with its thread-group slot)", held[0])
+	}
+	if bans < strikes+1 {
+		orc(c, "subnet-not-banned", "the peer store saw %d Ban call(s) after %d offences of one address, expected at least %d (each peer, then the /32 at the second strike)", bans, strikes, strikes+1)
+	}
+	if ok, _ := closeWithin(func() { srv.s.Close() }, closeDeadline); !ok {
+		orc(c, "syncer-close-hung", "Syncer.Close did not return within %v after a subnet ban", closeDeadline)
+	}
+	select {
+	case <-srv.run:
+	case <-time.After(settleDeadline):
+		orc(c, "run-not-returned", "Syncer.Run has not returned %v after Close", settleDeadline)
+	}
+	closeWithin(func() { cl.s.Close() }, closeDeadline)
+	events := threadgroup.VerifStop()
+	c.Nontrivial = true
+	c.Key = fmt.Sprintf("%s/%d", name, len(events))
+	inventory(c)
+	if tc := teardownCase(name, events, srv.s.VerifID(), srv.s.VerifTG(), []string{"scen:banlock"}); tc != nil {
+		r.Add(tc)
+	}
+}
+
+// scenSlowRPC: a SHORT RPCTimeout relative to the handlers' duration.  The per-peer limit is
+// saturated by handlers that are held for longer than RPCTimeout; a further RPC of the same peer
+// waits for a slot (back-pressure) for longer than RPCTimeout.  When the slot frees, that RPC must
+// be served: its handler has the full timeout from the moment it starts.
+func scenSlowRPC(name string, rng *vh.RNG, r *vh.Run) {
+	maxPeer := 1 + rng.Intn(2)
+	timeout := 500 * time.Millisecond
+	hold := timeout + time.Duration(300+rng.Intn(200))*time.Millisecond
+	c := &vh.Case{Name: name, Tags: []string{"scen:slowrpc", fmt.Sprintf("maxPeer:%d", maxPeer)},
+		Info: map[string]any{"maxPeer": maxPeer, "rpc_timeout_ms": timeout.Milliseconds(), "hold_ms": hold.Milliseconds()}}
+	defer func() { r.Add(c) }()
+	threadgroup.VerifStart()
+	srv, err := newNode("127.0.0.1", "", func(int) int { return 0 }, true,
+		syncer.WithMaxInflightRPCs(maxPeer), syncer.WithMaxInflightRPCsPerSubnet(0), syncer.WithRPCTimeout(timeout))
+	if err != nil {
+		orc(c, "setup", "server: %v", err)
+		return
+	}
+	cl, err := newNode("127.0.0.1", "", nil, false)
+	if err != nil {
+		orc(c, "setup", "client: %v", err)
+		return
+	}
+	p, err := cl.s.Connect(context.Background(), srv.s.Addr())
+	if err != nil {
+		orc(c, "setup", "connect: %v", err)
+		return
+	}
+	genesis := srv.cm.Tip().ID
+	// saturate the per-peer limit with held handlers (issued one after the other)
+	held := make(chan error, maxPeer)
+	for k := 0; k < maxPeer; k++ {
+		go func(k int) { held <- rpcBlocks(context.Background(), p, 0, k, genesis, rpcTimeout) }(k)
+		if got := srv.gate.waitInside(k+1, settleDeadline); got != k+1 {
+			orc(c, "setup", "handler %d did not start", k)
+			srv.gate.setOpen(true)
+			closeWithin(func() { srv.s.Close() }, closeDeadline)
+			closeWithin(func() { cl.s.Close() }, closeDeadline)
+			threadgroup.VerifStop()
+			return
+		}
+	}
+	// the back-pressured request
+	waited := make(chan error, 1)
+	t0 := time.Now()
+	go func() { waited <- rpcBlocks(context.Background(), p, 0, 99, genesis, rpcTimeout) }()
+	time.Sleep(hold)
+	srv.gate.setOpen(true)
+	select {
+	case err := <-waited:
+		if err != nil && !holStalled() {
+			orc(c, "backpressured-rpc-dropped", "an RPC that waited %v for a per-peer slot (MaxInflightRPCs %d, RPCTimeout %v, the handlers ahead of it were held %v) was not served when the slot freed: %v — the per-peer limit must back-pressure, the waiting time is not part of the handler's timeout", time.Since(t0).Round(time.Millisecond), maxPeer, timeout, hold, err)
+		}
+	case <-time.After(rpcTimeout + settleDeadline):
+		orc(c, "rpc-lost", "the back-pressured RPC never completed")
+	}
+	for k := 0; k < maxPeer; k++ {
+		select {
+		case <-held: // these were held past their own timeout: their outcome is not judged
+		case <-time.After(settleDeadline):
+		}
+	}
+	if ok, _ := closeWithin(func() { srv.s.Close() }, closeDeadline); !ok {
+		orc(c, "syncer-close-hung", "Syncer.Close did not return within %v", closeDeadline)
+	}
+	closeWithin(func() { cl.s.Close() }, closeDeadline)
+	events := threadgroup.VerifStop()
+	c.Nontrivial = true
+	c.Key = fmt.Sprintf("%s/%d", name, len(events))
+	inventory(c)
+	for _, tc := range inflightCases(name, events, srv.s.VerifID(), srv.s.VerifTG(), maxPeer, 0, []string{"scen:slowrpc"}) {
 		r.Add(tc)
 	}
 }
